@@ -335,6 +335,9 @@ struct DoerContext {
     /// The file for which an earlier chunk couldn't be written, if the boss may still be sending us more chunks of it.
     /// These must not be mistaken for the start of a new file, as the file would end up incomplete but with its final modified time.
     failed_file_receive: Option<RootRelativePath>,
+    /// Paths that we were asked to delete but couldn't. Whatever is still there (e.g. a symlink) must not be written to or through
+    /// by commands that the boss had already queued up behind the deletion, so these are refused.
+    failed_deletes: Vec<RootRelativePath>,
 }
 
 // Repeatedly waits for Commands from the boss and processes them (possibly sending back Responses).
@@ -376,6 +379,18 @@ fn message_loop(comms: &mut Comms) -> Result<(), ()> {
 fn exec_command(command: Command, comms: &mut Comms, context: &mut Option<DoerContext>) -> Result<bool, String> {
     #[cfg(rjrssync_verif)]
     if let Some(e) = verif_hooks::inject(&command) { comms.send_response(Response::Error(e))?; return Ok(true); }
+    // Refuse to touch anything at or inside a path that we failed to delete earlier
+    let command_path = match &command {
+        Command::CreateOrUpdateFile { path, .. } | Command::CreateSymlink { path, .. } | Command::CreateFolder { path } |
+        Command::DeleteFile { path } | Command::DeleteFolder { path } | Command::DeleteSymlink { path, .. } => Some(path),
+        _ => None,
+    };
+    if let (Some(path), Some(c)) = (command_path, context.as_ref()) {
+        if let Some(failed) = c.failed_deletes.iter().find(|f| path.is_same_or_inside(f)) {
+            comms.send_response(Response::Error(format!("Not processing '{}' because the earlier deletion of '{}' failed", path, failed)))?;
+            return Ok(true);
+        }
+    }
     match command {
         Command::SetRoot { root } => {
             if let Err(e) = handle_set_root(comms, context, root) {
@@ -495,6 +510,7 @@ fn exec_command(command: Command, comms: &mut Comms, context: &mut Option<DoerCo
             trace!("Deleting file '{}'", full_path.display());
             profile_this!(format!("DeleteFile {}", path.to_string()));
             if let Err(e) = std::fs::remove_file(&full_path) {
+                context.as_mut().unwrap().failed_deletes.push(path);
                 comms.send_response(Response::Error(format!("Error deleting file '{}': {e}", full_path.display())))?;
             }
         }
@@ -503,6 +519,7 @@ fn exec_command(command: Command, comms: &mut Comms, context: &mut Option<DoerCo
             trace!("Deleting folder '{}'", full_path.display());
             profile_this!(format!("DeleteFolder {}", path.to_string()));
             if let Err(e) = std::fs::remove_dir(&full_path) {
+                context.as_mut().unwrap().failed_deletes.push(path);
                 comms.send_response(Response::Error(format!("Error deleting folder '{}': {e}", full_path.display())))?;
             }
         }
@@ -516,6 +533,7 @@ fn exec_command(command: Command, comms: &mut Comms, context: &mut Option<DoerCo
                     SymlinkKind::Folder => std::fs::remove_dir(&full_path),
                     // We should never be asked to delete an Unknown symlink on Windows, but just in case:
                     SymlinkKind::Unknown => {
+                        context.as_mut().unwrap().failed_deletes.push(path);
                         comms.send_response(Response::Error(format!("Can't delete symlink of unknown type '{}'", full_path.display())))?;
                         return Ok(true);
                     }
@@ -525,6 +543,7 @@ fn exec_command(command: Command, comms: &mut Comms, context: &mut Option<DoerCo
                 std::fs::remove_file(&full_path)
             };
             if let Err(e) = res {
+                context.as_mut().unwrap().failed_deletes.push(path);
                 comms.send_response(Response::Error(format!("Error deleting symlink '{}': {e}", full_path.display())))?;
             }
         },
@@ -547,6 +566,7 @@ fn handle_set_root(comms: &mut Comms, context: &mut Option<DoerContext>, root: S
         root: PathBuf::from(root),
         in_progress_file_receive: None,
         failed_file_receive: None,
+        failed_deletes: vec![],
     });
     let context = context.as_ref().unwrap();
 
